@@ -68,14 +68,14 @@ def shrink(ops, sig, which, crypto=()):
 def scripts_for(ctx: Ctx):
     rng = ctx.rng
     scripts = list(gen.boundary_c13())
-    for _ in range(ctx.n(350, 12000)):
+    for _ in range(ctx.n(600, 12000)):
         scripts.append(gen.random_script(rng, 30, "c13"))
-    for _ in range(ctx.n(100, 3000)):
+    for _ in range(ctx.n(200, 3000)):
         scripts.append(gen.random_script(rng, 30, "c12"))
     return scripts
 
 
-def evaluate(ctx: Ctx, scripts, which, compare_model=True, crypto_of=None):
+def evaluate(ctx: Ctx, scripts, which, compare_model=True, crypto_of=None, sample=True):
     st = ctx.stats
     impl = run_impl(scripts, crypto_of)
     model = run_model_parallel(which, [gen.model_line(ops) for ops in scripts], workers=12) if compare_model else [None] * len(scripts)
@@ -97,6 +97,12 @@ def evaluate(ctx: Ctx, scripts, which, compare_model=True, crypto_of=None):
         closes = sum(1 for v in ci["log"].values() for e in v if e[1] == "close")
         events = sum(1 for v in ci["log"].values() for e in v if e[1] == "event")
         st.hit("outcome", "scripts-with-close" if closes else "scripts-without-close")
+        if crypto_of and crypto_of(idx):
+            st.hit("outcome", "scripts-over-real-session-cipher")
+        if r.get("loop_errors"):
+            st.hit("outcome", "scripts-with-exception-in-loop-callback")
+            if len(st.notes) < 3:
+                st.notes.append(f"exception reached the event loop: {r['loop_errors'][:2]} in {ops}")
         st.hit("outcome", "event-messages", events)
         st.hit("outcome", "transport-closes", closes)
         st.case(json.dumps(ci["log"], sort_keys=True), bool(closes or events))
@@ -108,8 +114,13 @@ def evaluate(ctx: Ctx, scripts, which, compare_model=True, crypto_of=None):
             diff = gen.first_difference(m, ci)
             if diff is not None:
                 ctx.disagree("sysev", ops, diff["what"] + " model=" + json.dumps(diff["model"])[:300], json.dumps(diff["impl"])[:300])
-        if idx in (0, 37, len(scripts) - 1):
+        if sample and idx in (0, 37, len(scripts) - 1):
             st.sample({"ops": ops, "impl_log": ci["log"], "agrees_with_model": m is not None and gen.first_difference(m, ci) is None, "oracle": [s for s, _ in verdicts]})
+
+
+def crypto_of(i):
+    """every fifth script runs its verified connections over the real HAPCrypto session cipher"""
+    return tuple(range(12)) if i % 5 == 3 else ()
 
 
 def run(ctx: Ctx):
@@ -120,7 +131,7 @@ def run(ctx: Ctx):
         "at least one transport close or one EVENT message; distinct by the full per-connection transport log."
     )
     ctx.assumptions.append("address reuse only after the previous loss was processed (generator-enforced)")
-    evaluate(ctx, scripts_for(ctx), "C13")
+    evaluate(ctx, scripts_for(ctx), "C13", crypto_of=crypto_of)
 
 
 def search(ctx: Ctx):
